@@ -115,6 +115,13 @@ def main():
     if rc != 0:
         broken.append("extract: tools/extract_consts.py no longer recognises the sources (see output above)")
 
+    try:
+        for name, (ok_, props, what) in extract_consts.shapes().items():
+            if pid in props and not ok_:
+                broken.append("extract:shape:%s no longer matches the source — %s" % (name, what))
+    except Exception as e:
+        broken.append("extract:shapes raised %r" % (e,))
+
     # 2. prove
     lean_ok = True
     if not args.no_proof:
